@@ -409,6 +409,24 @@ func exhaustiveC12(maxAtoms int) func(yield func(c c12Case) bool) {
 				return
 			}
 		}
+		// mirror pairs: two groupings of the SAME three atoms in the same order under one connective, e.g.
+		// ((a or b) and c) or (a or (b and c)): the operands look alike but are different expressions
+		var three []*Skel
+		enumSkels(3, func(s *Skel) bool {
+			if _, hasNot := s.features(false); !hasNot {
+				three = append(three, s)
+			}
+			return true
+		})
+		for _, l := range three {
+			for _, r := range three {
+				for _, op := range []string{"and", "or"} {
+					if !yield(c12Case{Skel: &Skel{Op: op, Kids: []*Skel{l, r}}}) {
+						return
+					}
+				}
+			}
+		}
 	}
 }
 
